@@ -23,7 +23,8 @@ import random
 from common import *
 import budget_common as B
 
-COQ_FILES = ['Lib/Str.v', 'C11/Model.v', 'C11/Proofs.v', 'C11/Props.v']
+COQ_FILES = ['Lib/Str.v', 'C11/Model.v', 'C11/Proofs.v', 'C11/Config.v', 'C11/ConfigProofs.v', 'C11/Props.v']
+IMPL_CFG = os.path.join(os.path.dirname(os.path.abspath(__file__)), 'impl_c11_cfg.py')
 IMPL = os.path.join(os.path.dirname(os.path.abspath(__file__)), 'impl_c11.py')
 PROP = 'C11'
 SPECIAL = {'income', 'investment'}
@@ -638,10 +639,110 @@ def model_check(rows, name='C11'):
     return bad, ''
 
 
+# ------------------------------------------------------------------ the settings-resolution table (C11/Config.v), every row
+MODE_RAWS = [(None, 'MKAbsent'), ('first_match', 'MKFirst'), ('"first_match"', 'MKFirst'), ('most_specific', 'MKMost'),
+             ("'most_specific'   # chosen in 2024", 'MKMost'), ('First_Match', 'MKOther'), ('MOST_SPECIFIC', 'MKOther'),
+             ('" most_specific "', 'MKOther'), ('mostspecific', 'MKOther'), ('""', 'MKOther'), ('', 'MKOther'), ('1', 'MKOther'), ('true', 'MKOther')]
+
+
+def config_rows():
+    rows = []
+    for raw, cls in MODE_RAWS:
+        for mk in (True, False):
+            for me in (True, False):
+                for lc in (True, False):
+                    for vk in (True, False):
+                        for vs in ('VMissing', 'VBroken', 'VGood'):
+                            for sv in (True, False):
+                                rows.append({'mode_raw': raw, 'mode_class': cls, 'merchants_key': mk, 'merchants_exists': me,
+                                             'legacy_csv': lc, 'views_key': vk, 'views': vs, 'stray_views': sv})
+    return rows
+
+
+def config_spec(row):
+    """The documented behaviour, restated over one row (direct oracle, independent of the Coq model)."""
+    mode = 'most_specific' if row['mode_class'] == 'MKMost' else 'first_match'
+    merchants = ('NewRules' if row['merchants_exists'] else 'NoRules') if row['merchants_key'] else ('LegacyCsv' if row['legacy_csv'] else 'NoRules')
+    views = row['views_key'] and row['views'] == 'VGood'
+    warns = (['InvalidRuleMode'] if row['mode_class'] == 'MKOther' else []) + \
+            (['MerchantsFileNotFound'] if row['merchants_key'] and not row['merchants_exists'] else []) + \
+            ([{'VMissing': 'ViewsFileNotFound', 'VBroken': 'ViewsError'}[row['views']]] if row['views_key'] and row['views'] != 'VGood' else [])
+    return {'mode': mode, 'merchants': merchants, 'views': bool(views), 'warnings': warns}
+
+
+def run_config_rows(rows):
+    base = B.work_root(PROP, 'cfgtable')
+    os.makedirs(base, exist_ok=True)
+    return run_impl(IMPL_CFG, {'base': base, 'rows': rows}, timeout=300)['results']
+
+
+CFG_HEADER = '''From Coq Require Import List Bool.
+From Tally Require Import C11.Config.
+Import ListNotations.
+Definition weqb (a b : cwarning) := match a, b with InvalidRuleMode, InvalidRuleMode | MerchantsFileNotFound, MerchantsFileNotFound
+  | ViewsFileNotFound, ViewsFileNotFound | ViewsError, ViewsError => true | _, _ => false end.
+Fixpoint wleqb (a b : list cwarning) := match a, b with [], [] => true | x :: r, y :: s => (weqb x y && wleqb r s)%bool | _, _ => false end.
+Definition ok (c : facts * (rmode * merchants * bool * list cwarning)) : bool :=
+  let '(f, (m, r, v, w)) := c in let x := resolve f in
+  (match r_mode x, m with RFirstMatch, RFirstMatch | RMostSpecific, RMostSpecific => true | _, _ => false end
+   && match r_merchants x, r with NoRules, NoRules | NewRules, NewRules | LegacyCsv, LegacyCsv => true | _, _ => false end
+   && Bool.eqb (r_views x) v && wleqb (r_warnings x) w)%bool.
+Fixpoint failing (i : nat) (l : list _) : list nat :=
+  match l with [] => [] | c :: r => if ok c then failing (S i) r else i :: failing (S i) r end.
+'''
+
+
+def config_table_check(run, broken, proofs_ok):
+    """Direct oracle + model-vs-implementation for the decision table; returns coverage numbers."""
+    rows = config_rows()
+    res = run_config_rows(rows)
+    bad = []
+    for row, r in zip(rows, res):
+        want = config_spec(row)
+        if 'error' in r or {k: r[k] for k in want} != want:
+            bad.append((row, r, want))
+    if bad:
+        row, r, want = bad[0]
+        run.violation('config-resolution', {'kind': 'counterexample', 'check': {'type': 'config', 'row': row}, 'law': 'config/resolution',
+                                            'budget': None, 'observed': r, 'expected': want, 'n_failing': len(bad),
+                                            'obligation': 'c11_config_resolution on load_config'})
+    n_coq = 0
+    if proofs_ok:
+        cases = []
+        b = {True: 'true', False: 'false'}
+        for row, r in zip(rows, res):
+            if 'error' in r or r['mode'] not in ('first_match', 'most_specific') or r['merchants'].startswith('other'):
+                continue      # already a violation above; not expressible as a model value
+            f = (f"mkFacts {row['mode_class']} {b[row['merchants_key']]} {b[row['merchants_exists']]} {b[row['legacy_csv']]} "
+                 f"{b[row['views_key']]} {row['views']} {b[row['stray_views']]}")
+            o = (f"({'RMostSpecific' if r['mode'] == 'most_specific' else 'RFirstMatch'}, {r['merchants']}, {b[bool(r['views'])]}, "
+                 f"[{'; '.join(r['warnings'])}])")
+            cases.append(f'({f}, {o})')
+        body = 'Definition cases := [\n' + ';\n'.join(cases) + '\n].\nEval vm_compute in failing 0 cases.\n'
+        rc, out, err = run_cases('C11_cfg', CFG_HEADER, body)
+        m = re.search(r'=\s*\[(.*?)\]\s*:\s*list nat', out, re.S)
+        n_coq = len(cases)
+        if rc != 0 or not m:
+            broken.append({'kind': 'broken-correspondence', 'obligation': 'model_vs_impl(C11.Config.resolve, load_config)',
+                           'detail': 'cases.v did not evaluate: ' + (out + err)[-600:]})
+        else:
+            idx = [int(x) for x in m.group(1).replace('%nat', '').replace('\n', ' ').split(';') if x.strip()]
+            if idx:
+                broken.append({'kind': 'broken-correspondence', 'obligation': 'model_vs_impl(C11.Config.resolve, load_config)',
+                               'detail': {'n': len(idx), 'case': cases[idx[0]]}})
+    return {'config_table_rows_run_on_load_config': len(rows), 'config_table_rows_checked_in_coq': n_coq,
+            'config_table_exhaustive': True, 'config_rows_failing': len(bad)}
+
+
 # ------------------------------------------------------------------ main
 def recheck(check, spec):
     """Re-evaluate one recorded check on a fresh directory; returns the failures (used by shrinking and replay)."""
     root = B.work_root(PROP, 'replay')
+    if check['type'] == 'config':
+        r = run_config_rows([check['row']])[0]
+        want = config_spec(check['row'])
+        return [] if 'error' not in r and {k: r[k] for k in want} == want else \
+            [{'law': 'config/resolution', 'detail': f'load_config resolved {r}, documented: {want}'}]
     if check['type'] == 'compose':
         return check_compose(root, spec)[0]
     if check['type'] == 'frame':
@@ -673,6 +774,7 @@ def main(tier):
         broken.append({'kind': 'hygiene', 'detail': res['hygiene']})
 
     B.clean_work(PROP)
+    cfg_cov = config_table_check(run, broken, res['ok'])
     rnd = random.Random(run.seed * 7919 + 11)
     n = 80 if tier == "quick" else 1500
     per = 3 if tier == 'quick' else 5
@@ -775,11 +877,12 @@ def main(tier):
     miss_stats = collections.Counter((r['missing']['state'], 'supp' if r['missing']['supp'] else 'src', 'reported' if r['missing']['reported'] else 'silent')
                                      for r in results if 'missing' in r)
     run.cov.update({
-        'evaluations': n_cli + len(rows), 'distinct_nontrivial': len(nontrivial),
+        'evaluations': n_cli + len(rows) + 2 * cfg_cov['config_table_rows_run_on_load_config'], 'distinct_nontrivial': len(nontrivial),
         'rule': 'generated budget directories: 1-4 sources with independent column order / date format / delimiter / has_header / '
                 'decimal separator / sign, optional supplemental source referenced by a rule, .rules (variables, transforms, let/field, '
                 'tag-only, priority) or legacy CSV or no rules, first_match / most_specific, with and without views, a missing / '
                 'directory / undecodable source file; non-trivial = distinct budgets in which >= 2 sources contribute and >= 2 merchants appear',
+        **cfg_cov,
         'budgets': n, 'cli_runs_fresh_process': n_cli, 'model_vs_impl_cases_in_coq': len(rows), 'unmapped_cases': unmapped,
         'live_toggles_per_setting': {k: {'live': v[0], 'toggled': v[1]} for k, v in sorted(live.items())},
         'missing_source_runs': {' '.join(k): v for k, v in miss_stats.items()},
